@@ -2,6 +2,7 @@ package main
 
 import (
 	"fmt"
+	"go/token"
 	"os"
 	"strings"
 
@@ -88,6 +89,24 @@ func c19TextWriter(c *Ctx) {
 	c.Check(ok, "textwriter", FuncName(vs)+":param[val]", vs.Pos(), why, "valueStr can be reached with a value that is not provably unmarked ("+why+"): the 'with x as …' summary would print marked content")
 	for f, w := range um.usedFieldRules {
 		c.Assumption("unmarked: named exception " + f + ": " + w)
+	}
+	// "unmarked" must mean "never marked": the unmarked copy of a marked value still has its content
+	if node := c.P.CallGraph().Nodes[vs]; node != nil {
+		for _, in := range node.In {
+			if in.Site == nil {
+				continue
+			}
+			args := in.Site.Common().Args
+			for _, a := range args {
+				if !isCtyValue(a.Type()) {
+					continue
+				}
+				c.Sites++
+				um := strippedCopy(a, map[ssa.Value]bool{}, 0)
+				c.Check(um == nil, "textwriter", FuncName(in.Caller.Func)+":call[valueStr].arg", in.Site.Pos(), "not the unmarked copy of a marked value",
+					"valueStr is given the result of Unmark(): the marks are gone but the content is that of the marked value, and it is printed in the 'with x as …' summary")
+			}
+		}
 	}
 	descends := false
 	for _, b := range vs.Blocks {
@@ -214,4 +233,39 @@ func strippedElementOf(v ssa.Value) (unmark *ssa.Call, remarked bool) {
 	}
 	unmark = walk(v, 0, false)
 	return unmark, remarked
+}
+
+// strippedCopy: v is (a phi / local / conversion of) result 0 of an Unmark* call.
+func strippedCopy(v ssa.Value, seen map[ssa.Value]bool, d int) *ssa.Call {
+	if v == nil || seen[v] || d > 12 {
+		return nil
+	}
+	seen[v] = true
+	switch x := v.(type) {
+	case *ssa.Extract:
+		if call, ok := x.Tuple.(*ssa.Call); ok && x.Index == 0 {
+			if calleeOf(&call.Call).isCtyValueMethod("Unmark", "UnmarkDeep", "UnmarkDeepWithPaths") {
+				return call
+			}
+		}
+	case *ssa.ChangeType:
+		return strippedCopy(x.X, seen, d+1)
+	case *ssa.Phi:
+		for _, e := range x.Edges {
+			if r := strippedCopy(e, seen, d+1); r != nil {
+				return r
+			}
+		}
+	case *ssa.UnOp:
+		if al, ok := x.X.(*ssa.Alloc); ok && x.Op == token.MUL {
+			for _, st := range storesInto(al) {
+				if st.Addr == ssa.Value(al) {
+					if r := strippedCopy(st.Val, seen, d+1); r != nil {
+						return r
+					}
+				}
+			}
+		}
+	}
+	return nil
 }
